@@ -1,5 +1,6 @@
 import TD.C05.LemWriter
 import TD.C05.LemStrip
+import TD.C05.LemInit
 /-!
 C05 — property theorems (LIS physical records: what is written is what is read, at any position; TIF stripping).
 
@@ -57,5 +58,85 @@ theorem strip_tif_write (L : Layout) (rs : List Bytes) (hL : L.Valid) (hle : L.t
 example : let L : Layout := ⟨14, true, none, true, .le⟩
     let rs : List Bytes := [[1,2,3,4,5,6,7,8,9,10,11,12,13],[1,2]]
     L.Valid ∧ L.tif = .le ∧ rs ≠ [] ∧ (∀ r ∈ rs, r ≠ []) ∧ fileSize L rs < 4294967296 ∧ numPRs L rs = 4 := by decide
+
+
+/-- what a history may contain: seeks go to the reported start position of a record (or to the end position) -/
+def HistOK (rs : List Bytes) (ops : List Op) : Prop := ∀ op ∈ ops, ∀ i, op = .seek i → i ≤ rs.length
+
+theorem histOK_opOK {rs : List Bytes} {ops : List Op} (h : HistOK rs ops) : ∀ op ∈ ops, OpOK rs op := by
+  intro op hop
+  cases op with
+  | seek i => exact h _ hop i rfl
+  | _ => trivial
+
+/-- **read_refines** (simulation, unbounded in records, lengths, layout and history length).
+Take any valid layout (all trailer combinations, TIF off / normal / byte-reversed), any list of non-empty logical
+records, and the LIS-79 encoding `encode L rs` of it. For EVERY history of operations
+`read n | skip n | read rest (n<0) | skip rest | skipToNextLr | seekLr(position of record i) | tellLr`
+the replies of the reader model (`PhysRecRead` through `File.FileRead`, constructed on the file) are exactly the
+replies of the abstract semantics on `(records, cursor = (record, offset))`: bytes are the bytes of the records,
+counts are the numbers of bytes left, positions are the sums of the record sizes, `None` comes once at the end of a
+record, operations at end of file raise the EOF error — and no other exception ever occurs.
+Hypotheses: records non-empty; a TIF file has at least one record; byte-reversed TIF excludes the two first `next`
+words 0x100 and 0x10000 whose byte orders are indistinguishable; the file is shorter than 2^32 − 24 bytes.
+The proof is `init_rel` (invariant holds initially), `step_sim` (every operation preserves the invariant `Rel` and
+answers like the abstract step) and induction over the history (`run_sim`). -/
+theorem read_refines (L : Layout) (rs : List Bytes) (ops : List Op)
+    (hL : L.Valid) (hr : ∀ r ∈ rs, r ≠ []) (hne : L.tif ≠ .off → rs ≠ [])
+    (hbe : L.tif = .be → firstNext L rs ≠ 0x100 ∧ firstNext L rs ≠ 0x10000)
+    (hsz : fileSize L rs + 24 < 4294967296) (hops : HistOK rs ops) :
+    run (encode L rs) (some (Rd.new (encode L rs))) (ops.map (concOp L rs)) = absRun L rs AState.init ops := by
+  have g : Good L rs := ⟨hL, hr, by unfold fileSize at hsz; omega⟩
+  exact run_sim g ops _ _ (init_rel g hne hbe) (histOK_opOK hops)
+
+/-- **seek_any_order.** After ANY history (any interleaving of reads, skips, seeks in any order), seeking to the reported
+start of record `i`, reading it whole and asking for the position answers: that position, exactly the bytes of record
+`i`, that position. -/
+theorem seek_any_order (L : Layout) (rs : List Bytes) (ops : List Op) (i : Nat)
+    (hL : L.Valid) (hr : ∀ r ∈ rs, r ≠ []) (hne : L.tif ≠ .off → rs ≠ [])
+    (hbe : L.tif = .be → firstNext L rs ≠ 0x100 ∧ firstNext L rs ≠ 0x10000)
+    (hsz : fileSize L rs + 24 < 4294967296) (hops : HistOK rs ops) (hi : i < rs.length) :
+    (run (encode L rs) (some (Rd.new (encode L rs)))
+        ((ops ++ ([Op.seek i, Op.read (-1), Op.tell] : List Op)).map (concOp L rs))).drop ops.length
+      = [.pos (tellOf L rs i), .bytes (recAt rs i), .pos (tellOf L rs i)] := by
+  have hops' : HistOK rs (ops ++ ([Op.seek i, Op.read (-1), Op.tell] : List Op)) := by
+    intro op hop j hj
+    rcases List.mem_append.mp hop with h | h
+    · exact hops op h j hj
+    · subst hj
+      simp only [List.mem_cons, Op.seek.injEq, reduceCtorEq, List.mem_nil_iff, or_false] at h
+      omega
+  rw [read_refines L rs _ hL hr hne hbe hsz hops', absRun_append]
+  have hl := absRun_length L rs ops AState.init
+  rw [← hl, List.drop_left]
+  exact abs_seek_read L rs _ i hi (hr _ (by unfold recAt; simp [hi]))
+
+/-- the hypotheses of `read_refines` are satisfiable by a non-trivial instance: reversed TIF, record-number and
+file-number trailers, maximum payload 3, records of 7 and 2 bytes, a history that reads across PR boundaries, seeks
+backwards and runs into the end of the file -/
+example : let L : Layout := ⟨11, true, some 7, false, .be⟩
+    let rs : List Bytes := [[1,2,3,4,5,6,7],[8,9]]
+    let ops : List Op := [.read 2, .skip 3, .read 5, .read 1, .tell, .seek 1, .next, .read 1, .seek 0, .read (-1)]
+    L.Valid ∧ (∀ r ∈ rs, r ≠ []) ∧ (L.tif ≠ .off → rs ≠ []) ∧
+    (L.tif = .be → firstNext L rs ≠ 0x100 ∧ firstNext L rs ≠ 0x10000) ∧ fileSize L rs + 24 < 4294967296
+    ∧ HistOK rs ops
+    ∧ absRun L rs AState.init ops = [.bytes [1,2], .count 3, .bytes [6,7], .none, .pos 0, .pos 67, .count 2,
+        .eofError, .pos 0, .bytes [1,2,3,4,5,6,7]] := by
+  refine ⟨by decide, by decide, by decide, by decide, by decide, ?_, by decide⟩
+  intro op hop i hi
+  subst hi
+  simp only [List.mem_cons, Op.seek.injEq, reduceCtorEq, List.mem_nil_iff, or_false, false_or] at hop
+  rcases hop with h | h <;> (subst h; decide)
+
+/-- the exclusion for byte-reversed TIF markers is necessary: with a first marker `next = 0x100` (first PR of 244 bytes)
+the constructor takes the file for a normal TIF file and the second marker is refused — the model's replies differ
+from the abstract ones. (The second excluded value 0x10000 is finding F22: it needs a 65 524 byte PR and is shown
+on the real code by the harness.) -/
+example : let L : Layout := ⟨244, false, none, false, .be⟩
+    let rs : List Bytes := [List.replicate 240 65, [1, 2]]
+    firstNext L rs = 0x100 ∧
+    run (encode L rs) (some (Rd.new (encode L rs))) ([.read (-1), .read (-1)].map (concOp L rs))
+      ≠ absRun L rs AState.init [.read (-1), .read (-1)] := by
+  decide +kernel
 
 end TD.C05
